@@ -66,6 +66,12 @@ CHECKS = {
         text='Theorems at the reals about the regenerated definitions: non-negativity of all ten spectra on the admissible domain; ISSC, Gaussian-swell and JONSWAP (beta = 5/4, gamma >= 1) are maximal at the stated peak frequency; JONSWAP = (gamma = 1 form) x gamma^r with the factor in [1, gamma] and equal to gamma at the peak; each normalised wind spectrum equals f*S(f)/scale of the dimensional one at the reduced frequency (Davenport x2, EC1 x5 terrain categories, IEC x3 components). Area theorems (documented variance) are in Proofs/C18Areas.lean where proved; every area, peak and relation is also evaluated numerically on the implementation (quadrature), which is what exhibits a failing input when a constant or exponent is edited and a proof breaks.',
         note='Trusted: Lean kernel + standard axioms + Mathlib; harness/translate.py validated each run at Float (1e-9 relative, Gamma by Lanczos in the Float instance only); for the two Davenport forms the normalising scale is kappa*U^2 resp. u*^2 (= variance/6) as in the code, its documentation and the source paper (DESIGN §7); clauses whose area theorem is not yet proved are decided by quadrature only (listed in the evidence).',
         ref='§5 C18'),
+    'C08': dict(
+        engine='formula',
+        technique='Lean 4 proof over the reals about a code-shaped generic-scalar model (accumulation loop with sentinel, closed-form least squares) + Float evaluation of the same model compared with the implementation',
+        text='Theorems at the reals about the model: the accumulation loop equals the sum over rows of (0 if S <= limit else count / 10^(a S + b)); additive over concatenation, proportional to the counts, permutation invariant, non-negative, zero for rows at or below the limit (boundary included), non-decreasing when a stress level is raised on a falling curve; the naive model is the sum of C/F; the closed-form (a, b) satisfies the normal equations and interpolates two points exactly. The model is evaluated at Float and compared with minerDamageModelClassic/Naive and SnCurveFitter.getN (1e-8 / 1e-9), and the consequences are evaluated on the implementation.',
+        note='Trusted: Lean kernel + standard axioms + Mathlib; hand-written model FF.Miner tied by tolerance correspondence at Float; np.polyfit trusted to return the least-squares line (compared with the closed form on every case); np.log10 / np.power as libm; real arithmetic stands for binary64.',
+        ref='§5 C08'),
 }
 
 NOT_YET = {}
